@@ -457,3 +457,8 @@ router-advertisements:
     )?;
     Ok(())
 }
+
+#[cfg(feature = "isomer_erbium_verif")]
+mod isomer_erbium_verif {
+    include!(concat!(env!("ISOMER_ERBIUM_VERIF_DIR"), "/radv_config.rs"));
+}
